@@ -691,6 +691,16 @@ class BaseProperty(base.BaseObject):
         if not self._validate_values(new_value):
             raise ValueError("odml.Property.merge: passed value(s) cannot "
                              "be converted to data type '%s'!" % self._dtype)
+        # An uncertainty that is not a number can have been passed to the constructor
+        # of the source; the destination could not take it over.
+        if self.uncertainty is None and source.uncertainty and \
+                not isinstance(source.uncertainty, (int, float)):
+            try:
+                float(source.uncertainty)
+            except (TypeError, ValueError):
+                raise ValueError("odml.Property.merge: src uncertainty '%s' "
+                                 "is not float or int." % source.uncertainty)
+
         if not strict:
             return
 
